@@ -254,3 +254,32 @@ def execute(case):
     else:
         ck.bound(fro(g - ref), 64 * d * UNIT[dt] * max(fro(ref_abs), 1e-300), "value_roundoff")
     return ck.verdict()
+
+
+ENUM_DOC = ("thorough tier: for every tensor shape in {1,2,3}^d, d=1..3 (ranks 2), every index expression built from the "
+            "per-mode alphabet {0, -1, :, 0:1, ::2} with no / one None at every position, and every leading/trailing "
+            "Ellipsis replacing 0..d full slices, is executed (finite space enumerated completely)")
+
+
+def enumerate_cases():
+    import itertools
+    syms = [{"k": "int", "v": 0}, {"k": "int", "v": -1}, {"k": "slice", "v": [None, None, None]},
+            {"k": "slice", "v": [0, 1, None]}, {"k": "slice", "v": [None, None, 2]}]
+    cases = []
+    for d in (1, 2, 3):
+        for N in itertools.product((1, 2, 3), repeat=d):
+            x = {"N": list(N), "R": [1] + [2] * (d - 1) + [1], "dt": "f64", "mode": "int", "seed": 7 + sum(N), "amp": 2}
+            for combo in itertools.product(syms, repeat=d):
+                base = [dict(c) for c in combo]
+                cases.append({"what": "tensor", "x": x, "expr": base, "form": "tuple"})
+                for pos in range(d + 1):
+                    e = [dict(c) for c in combo]
+                    e.insert(pos, {"k": "none"})
+                    cases.append({"what": "tensor", "x": x, "expr": e, "form": "tuple"})
+                # Ellipsis standing for j leading / trailing modes (only where those modes carry a full slice)
+                for j in range(0, d + 1):
+                    if all(c["k"] == "slice" and c["v"] == [None, None, None] for c in combo[:j]):
+                        cases.append({"what": "tensor", "x": x, "expr": [{"k": "ellipsis"}] + [dict(c) for c in combo[j:]], "form": "tuple"})
+                    if all(c["k"] == "slice" and c["v"] == [None, None, None] for c in combo[d - j:]) or j == 0:
+                        cases.append({"what": "tensor", "x": x, "expr": [dict(c) for c in combo[:d - j]] + [{"k": "ellipsis"}], "form": "tuple"})
+    return cases
